@@ -131,3 +131,34 @@ Proof.
   assert (H2 : Qeq_bool (inject_Z (Z.of_nat i)) (inject_Z (Z.of_nat i)) = true) by (apply Qeq_bool_iff; reflexivity).
   rewrite H2. rewrite Nat2Z.id. reflexivity.
 Qed.
+
+(* ---------- WCS-backed extra coords through the mapping --------------------------------------------------------------- *)
+Lemma zip3_map {A B C D X} (g : A -> B -> C -> D) (a : X -> A) (b : X -> B) (c : X -> C) (l : list X) :
+  zip3 g (map a l) (map b l) (map c l) = map (fun x => g (a x) (b x) (c x)) l.
+Proof. induction l as [|x l IH]; [reflexivity|]. cbn [map zip3]. rewrite IH. reflexivity. Qed.
+
+Lemma nth_zip3 (g : Q -> Q -> Q -> Q) : forall (a b c : list Q) k, (k < length a)%nat -> length b = length a -> length c = length a ->
+  nth k (zip3 g a b c) 0 = g (nth k a 0) (nth k b 0) (nth k c 0).
+Proof.
+  induction a as [|x a IH]; intros b c k Hk Hb Hc; [cbn [length] in Hk; lia|].
+  destruct b as [|y b]; [discriminate|]. destruct c as [|z c]; [discriminate|]. cbn [zip3]. destruct k as [|k]; [reflexivity|].
+  cbn [nth]. apply IH; cbn [length] in *; lia.
+Qed.
+
+(* The resampled extra WCS, asked at the extra-pixel position of cube position E', answers with the source extra WCS
+   at the extra-pixel position of the cube position E' * factor + offset: whatever the mapping, the extra coords stay
+   registered to the cube's own resampling (for rebin: to the block centres). *)
+Theorem ec_resample_registered (W : list Q -> list Q) n pm factor offset E' :
+  length factor = n -> length offset = n -> length E' = n -> Forall (fun p => (p < n)%nat) pm ->
+  ec_resampled W n pm factor offset (ec_pixel n pm E') = W (ec_pixel n pm (scale factor offset E')).
+Proof.
+  intros Hf Ho HE Hpm. unfold ec_resampled. f_equal. unfold scale, ec_param, ec_pixel.
+  rewrite (zip3_map (fun p f o => p * f + o)). apply map_ext_in. intros p Hp. rewrite Forall_forall in Hpm. specialize (Hpm p Hp).
+  symmetry. apply (nth_zip3 (fun p0 f o => p0 * f + o)); lia.
+Qed.
+
+(* for a rebin (offset (f-1)/2 on every axis): the block centres *)
+Corollary ec_rebin_registered (W : list Q -> list Q) n pm fs E' :
+  length fs = n -> length E' = n -> Forall (fun p => (p < n)%nat) pm ->
+  ec_resampled W n pm fs (map rebin_offset fs) (ec_pixel n pm E') = W (ec_pixel n pm (scale fs (map rebin_offset fs) E')).
+Proof. intros Hf HE Hpm. apply ec_resample_registered; try assumption. rewrite map_length. exact Hf. Qed.
